@@ -229,7 +229,40 @@ def replay_two_models(case, cx):
     case = case if isinstance(case, dict) else json.loads(case)
     base = {k: v for k, v in case.items() if k not in ("kind", "to", "lam", "k", "which")}
     cfg1 = LM.default_cfg(**base)
-    vals = cx["vals"][0]
+    # the failed witness obligation says the proof of monotonicity breaks at one constraint; whether the real optimum moves the wrong way depends on the instance.
+    # The solver's instance is replayed first, then instances that make the optimiser lean on the food of the broken constraint, then generic ones.
+    tried = []
+    for vals in _instances(cfg1, cx):
+        r = _replay_two_on(case, base, cfg1, vals, cx)
+        if r["reproduced"]:
+            return r
+        tried.append(r["what"][-80:])
+    return dict(reproduced=False, what="%s; not reproduced on %d instances: %s" % (cx["info"], len(tried), tried))
+
+
+FOCUS = (("Meat", "slaughter"), ("Stored_Food", "sf0"), ("Crops", "crops"), ("Outdoor", "crops"), ("Methane", "scp"), ("Cellulosic", "cs"), ("Seaweed", "area"))
+
+
+def _instances(cfg, cx):
+    import random
+    from harness.C02_optimum import _concrete_vals
+    out = [cx["vals"][0]]
+    rng = random.Random(2024)
+    broken = cx["info"].split("breaks ")[-1]
+    keep = [k for pre, k in FOCUS if broken.startswith(pre)]
+    for _ in range(2):
+        g = _concrete_vals(cfg, rng)
+        if keep:
+            f = {k: ([0.0] * len(v) if isinstance(v, list) else 0.0) for k, v in g.items() if k != "pins"}
+            f["area"] = g["area"]
+            for k in keep:
+                f[k] = g[k]
+            out.append(f)
+        out.append(g)
+    return out
+
+
+def _replay_two_on(case, base, cfg1, vals, cx):
     import copy
     try:
         pf1, X1 = Q.run_real(cfg1, vals, cx["growth"])
